@@ -11,9 +11,9 @@ from .smt import S, I, SeqS
 from .vx import (V, NONE, RAISE, HList, HDict, St, OutOfReach, fresh, fresh_name,
                  vint, vbool, vstr, vopq, GHOST_SEQ_FIELDS, GHOST_LIST_FIELDS, CTX_NAMES)
 
-SPEC_BUILTINS = {"memo_coherent", "sql_count", "sql_kind", "sql_text", "sql_params", "expr_value", "parses_as_int", "prefix", "appended", "keys_of", "implies", "is_str", "is_none", "seq_len", "logged"}
+SPEC_BUILTINS = {"call_result", "call_arg", "same_object", "memo_coherent", "sql_count", "sql_kind", "sql_text", "sql_params", "expr_value", "parses_as_int", "prefix", "appended", "keys_of", "implies", "is_str", "is_none", "seq_len", "logged"}
 BUILTIN_NAMES = {
-    "memo_coherent", "sql_count", "sql_kind", "sql_text", "sql_params", "expr_value", "parses_as_int", "prefix", "appended", "keys_of", "implies", "is_str", "is_none", "seq_len", "logged",
+    "call_result", "call_arg", "same_object", "memo_coherent", "sql_count", "sql_kind", "sql_text", "sql_params", "expr_value", "parses_as_int", "prefix", "appended", "keys_of", "implies", "is_str", "is_none", "seq_len", "logged",
     "len", "int", "str", "max", "min", "isinstance", "callable", "tuple", "list", "map",
     "range", "reversed", "sorted", "any", "all", "ord", "chr", "set", "frozenset", "dict",
     "float", "abs", "round", "repr", "bool", "enumerate", "zip", "iter", "next", "print",
@@ -1200,7 +1200,6 @@ def call_callback(x, st, name, cbname, pos, kw, node):
         return out
     spec = x.reg.callback_contracts.get(cbname, {})
     x.assumptions.add(f"callback `{name}` honours contract `{cbname}`: " + spec.get("text", ""))
-    x.log_call(st, name, pos)
     rk = spec.get("result", "opq")
     outs = []
     if rk == "optstr":
@@ -1209,6 +1208,8 @@ def call_callback(x, st, name, cbname, pos, kw, node):
         outs.append((st.fork(z3.Not(isn)), fresh("str", "cbret")))
     else:
         outs.append((st, fresh(rk, "cbret")))
+    for s_, r_ in outs:
+        x.log_call(s_, name, pos, r_)
     if x.mode == "frame" and spec.get("may_raise", True):
         outs.append(_raise_fork(x, st, node))
     return outs
@@ -1352,7 +1353,6 @@ def apply_contract(x, st, c, fn, pos, kw, node, chain):
                 x.oblige("pre@call", f"{c.target}: {cl}", s2, z3.BoolVal(False))
             else:
                 x.oblige("pre@call", f"{c.target}: {cl} @ {loader.norm(node)[:60]}", s2, x.truth_st(v, s2))
-    x.log_call(st, c.target.split(":")[-1].rsplit(".", 1)[-1], pos)
     outs = []
     rk = c.result or "opq"
     if rk == "optstr":
@@ -1368,6 +1368,7 @@ def apply_contract(x, st, c, fn, pos, kw, node, chain):
     else:
         cands = [(st, fresh(rk, "ret"))]
     for s, r in cands:
+        x.log_call(s, c.target.split(":")[-1].rsplit(".", 1)[-1], pos, r)
         for eff in getattr(c, "effects", []) or []:
             apply_effect(x, s, eff, bound)
         env = dict(bound)
@@ -1992,6 +1993,21 @@ def spec_builtin(x, st, name, pos, kw, node):
     """functions available in contract clauses only"""
     def g(v):
         return st.ghost[v.t] if v.k == "gref" else v
+    if name in ("call_result", "call_arg"):
+        cn = x.const_of(pos[0])[0]
+        i = x.const_of(pos[1])[0]
+        ents = [e for e in st.log if e and e[0] == "call" and e[1] == cn]
+        if not (-len(ents) <= i < len(ents)):
+            return [(st, RAISE("ClauseError", f"no logged call #{i} of {cn}"))]
+        if name == "call_result":
+            return [(st, ents[i][3] if ents[i][3] is not None else NONE)]
+        j = x.const_of(pos[2])[0]
+        if j >= len(ents[i][2]):
+            return [(st, RAISE("ClauseError", "no such argument"))]
+        return [(st, ents[i][2][j])]
+    if name == "same_object":
+        a, b = pos
+        return [(st, vbool(a.k == b.k and (a.t is b.t or (a.k in ("ref", "opq") and a.t == b.t))))]
     if name == "memo_coherent":
         return [(st, st.ghost.get("memo_valid", vbool(True)))]
     if name in ("sql_count", "sql_kind", "sql_text", "sql_params"):
